@@ -146,3 +146,7 @@ Definition m_setdata_spec := setdata_spec.
 From FQE Require Import Ext.
 Definition m_ext_blocks := ext_blocks.
 Definition m_ext_full := ext_full.
+
+(* C18 *)
+From FQE Require Import Cert.
+Definition m_check_cert := check_cert.
